@@ -88,6 +88,8 @@ type Sched struct {
 	KeyName func(key interface{}) string
 	// OnAbort is called once when the run is aborted (before parked tasks are released).
 	OnAbort func()
+	// OnWait is called by a task (holding the baton) when it starts to wait on a channel of the code under test.
+	OnWait func(task int, point string)
 }
 
 func New(vec []uint16) *Sched { return NewLimit(vec, 5000) }
@@ -406,6 +408,9 @@ func (s *Sched) Wait(ch <-chan struct{}, point string) {
 			s.waits++
 			s.note(me, "wait:"+point)
 			first = false
+			if s.OnWait != nil {
+				s.OnWait(me, point)
+			}
 		}
 		s.state[me] = stWaiting
 		s.polledAt[me] = s.progress
